@@ -196,6 +196,15 @@ def h_forms(eng, stack, form):
     names = []
     for c, with_n in stack:
         model.enable(c, nv if with_n else None)
+
+    def partial(i):
+        # the model of the first i activations: conversions made while only part of the stack is
+        # active (they must not influence what the full stack answers later)
+        pm = Model(W)
+        for c, with_n in stack[:i]:
+            pm.enable(c, nv if with_n else None)
+        return pm
+
     objs = {"c1": "c1", "c2": "c2", "c3": "c3", "c4": "c4", "c5": shared}
     alias = {"c1": "C1"}
     has_n = any(wn for _c, wn in stack)
@@ -203,9 +212,15 @@ def h_forms(eng, stack, form):
     # multi-name forms when that is what the model's stack means
     uniform = all(wn == has_n for _c, wn in stack) or len(stack) == 1
     if form == "enable-each":
-        for c, wn in stack:
+        for i, (c, wn) in enumerate(stack):
+            if i:
+                probe(eng, ureg, partial(i), x, f"enable-each@{i}", False)
             ureg.enable_contexts(objs[c], **({"n": nv} if wn else {}))
         probe(eng, ureg, model, x, "enable-each")
+        # pop one at a time: the answers of the shorter stacks again
+        for i in range(len(stack) - 1, 0, -1):
+            ureg.disable_contexts(1)
+            probe(eng, ureg, partial(i), x, f"enable-each-popped@{i}", False)
         ureg.disable_contexts()
     elif form == "enable-alias":
         for c, wn in stack:
@@ -219,8 +234,12 @@ def h_forms(eng, stack, form):
                 probe(eng, ureg, model, x, "nested-with")
                 return
             c, wn = stack[i]
+            if i:
+                probe(eng, ureg, partial(i), x, f"nested-with@{i}", False)
             with ureg.context(objs[c], **({"n": nv} if wn else {})):
                 nest(i + 1)
+            if i:
+                probe(eng, ureg, partial(i), x, f"nested-with-left@{i}", False)
 
         nest(0)
     elif form == "per-call":
@@ -253,6 +272,86 @@ def h_forms(eng, stack, form):
         f()
     # everything is back to normal afterwards
     probe(eng, ureg, Model(W), x, "after", False)
+
+
+# ----------------------------------------------------------------------------- contexts built in code
+
+
+def h_programmatic(eng, endpoints, act, second):
+    """a Context built with add_transformation (endpoints written as derived dimension names,
+    base-dimension expressions or containers) applies its rule on the very first activation,
+    whichever way it is activated and whether or not that activation carries parameters"""
+    from pint import Context
+    from pint.util import UnitsContainer
+
+    k, n0, nv, x = eng.real("k"), eng.real("n0"), eng.real("nv"), eng.real("x")
+    for v in (k, n0, nv):
+        eng.assume(v > 0)
+    eng.assume(Not(Eq(n0, nv)))
+    L = eng.lit
+    lines = ["m = [length]", "s = [time]", "g = [mass]", "[frequency] = 1 / [time]", "[speed] = [length] / [time]", "hz = 1 / s", "kn = m / s",
+             f"@context(q={L(nv, paren=False)}) outer", "    [mass] -> [time]: value * q * s / g", "@end"]
+    ureg = regs.build(eng, lines)
+    src_spec, dst_spec = {
+        "derived": ("[length]", "[frequency]"),
+        "derived-both": ("[speed]", "[frequency]"),
+        "base-expr": ("[length]", "1 / [time]"),
+        "container": (UnitsContainer({"[length]": 1}), UnitsContainer({"[time]": -1})),
+    }[endpoints]
+    src_unit = "kn" if endpoints == "derived-both" else "m"
+    c = Context("p", defaults={"n": n0})
+
+    def fwd(ureg_, value, n=None, **kw):
+        return value * k * n * ureg_.Quantity(1, "hz") / ureg_.Quantity(1, src_unit)
+
+    c.add_transformation(src_spec, dst_spec, fwd)
+    if act != "per-call-object":
+        ureg.add_context(c)
+    q = ureg.Quantity(x, src_unit)
+
+    def once(tag):
+        want_n = None
+        try:
+            if act == "per-call-object":
+                r, want_n = q.to("hz", c, n=nv), nv
+            elif act == "per-call-name":
+                r, want_n = q.to("hz", "p", n=nv), nv
+            elif act == "per-call-default":
+                r, want_n = q.to("hz", "p"), n0
+            elif act == "with-kw":
+                with ureg.context("p", n=nv):
+                    r, want_n = q.to("hz"), nv
+            elif act == "with-default":
+                with ureg.context("p"):
+                    r, want_n = q.to("hz"), n0
+            elif act == "nested-inherits":
+                # the enclosing context carries a parameter (q): the inner one is activated
+                # with inherited keyword arguments although none is written
+                with ureg.context("outer"):
+                    with ureg.context("p"):
+                        r, want_n = q.to("hz"), n0
+            elif act == "enable-kw":
+                ureg.enable_contexts("p", n=nv)
+                try:
+                    r, want_n = q.to("hz"), nv
+                finally:
+                    ureg.disable_contexts()
+            else:
+                raise AssertionError(act)
+        except DimensionalityError:
+            eng.fail(f"{tag}:rule-not-applied")
+            return
+        eng.prove(Eq(r.magnitude, x * k * want_n), f"{tag}:value")
+        try:
+            q.to("hz")
+        except DimensionalityError:
+            eng.prove(True, f"{tag}:inactive-afterwards")
+        else:
+            eng.fail(f"{tag}:still-active-afterwards")
+
+    once("first")
+    if second:
+        once("second")
 
 
 # ----------------------------------------------------------------------------- path search
@@ -316,7 +415,7 @@ def _safe_path(g, a, b):
         return "KeyError"
 
 
-MIN_DISCHARGED = {"H11.a": 150, "H11.b": 1000, "H11.c": 5000}
+MIN_DISCHARGED = {"H11.a": 150, "H11.b": 1000, "H11.c": 5000, "H11.d": 50}
 
 
 def cases(tier, seed):
@@ -342,6 +441,9 @@ def cases(tier, seed):
                 continue
             sig = "+".join(c + ("(n)" if wn else "") for c, wn in st) + ":" + form
             out.append(Case("H11.b", sig, M, "h_forms", {"stack": [list(s) for s in st], "form": form}, opts=mixed, validate=1 if len(st) == 1 else 0, weight=float(len(st))))
+    for ep in ("derived", "derived-both", "base-expr", "container"):
+        for act in ("per-call-object", "per-call-name", "per-call-default", "with-kw", "with-default", "nested-inherits", "enable-kw"):
+            out.append(Case("H11.d", f"{ep}:{act}", M, "h_programmatic", {"endpoints": ep, "act": act, "second": True}, opts=mixed, validate=1))
     # path search: all graphs with 4 nodes (first row enumerated by cases, the rest by forks)
     for n in (3, 4):
         for row in itertools.product([0, 1], repeat=n - 1):
